@@ -97,6 +97,22 @@ def run(tier, seed, replay=None):
             r = rows[i]
             chk.violation("impl:%s:%s" % (inv, json.dumps({k: v for k, v in cs[i].items() if k not in ("k", "seed")})), "initialisation of %s violates %s: outcome %s, attempts %s, %s" % (
                 json.dumps(cs[i]), inv, r["outcome"], [a["result"] for a in r["attempts"]], r.get("num", "")), {"case": cs[i], "invariant": inv})
+    # tissues of four cells triangulated in parallel (4 threads): an impossible cell at every list position, and an all-good control
+    if not replay:
+        mp = os.path.join(work, "multi.ndjson")
+        rc, out = vlib.run([os.path.join(bdir, "init_driver"), "multi", mp, work], timeout=1200, env={"OMP_NUM_THREADS": "4"})
+        mrows = vlib.read_ndjson(mp) if os.path.exists(mp) else []
+        if rc != 0 or len(mrows) != 5:
+            chk.violation("crash:multi", "initialisation of a four-cell tissue crashed / terminated (status %d) after %d of 5 tissues" % (rc, len(mrows)), {"multi": True})
+        else:
+            nm, mbad = vlib.tlc_validate_records(SPEC, "InitMultiTrace", "InitMultiTrace.cfg", mrows, chunk=10, par=1, workers=1)
+            chk.cov["states"] += nm
+            chk.cov["transitions"] += nm
+            n += nm
+            for inv, idxs in sorted(mbad.items()):
+                for i in idxs:
+                    chk.violation("impl:%s:multi:%d" % (inv, mrows[i]["bad_position"]), "four cells triangulated in parallel, the impossible one at list position %d: %s violated; %s" % (
+                        mrows[i]["bad_position"], inv, json.dumps(mrows[i])), {"multi_record": mrows[i]})
     handed = sum(1 for r in rows if r["handed"])
     gave_up = sum(1 for r in rows if r["outcome"] == "initialization_exception")
     chk.cov["traces_validated_against_impl"] = n
